@@ -14,6 +14,13 @@ def run (c : Case) : String :=
   let places := ((c.get "places").bind String.toInt?).getD 0
   let k := ((c.get "k").bind String.toNat?).getD 0
   let ms := parseInts (c.getD "ms" "-")
+  if c.getD "ctxrun" "-" == "1" then
+    -- a per-item map: one output per input, each with the context of its own notification (C09: the regenerated CtxFlow rows of the
+    -- precision operators; RoModel/Ops/Precision.lean models the values only)
+    let n := ms.length
+    let cs := (List.range n).map (fun i => s!"N/7.{i + 1}") ++ [s!"C/7.{n + 1}"]
+    s!"res {c.id} ctxs={",".intercalate cs}"
+  else
   let f := if c.getD "op" "Floor" == "Ceil" then Ro.Precision.ceilN else Ro.Precision.floorN
   let ns := ms.map (fun m => toString (f m k places))
   s!"res {c.id} ns={if ns.isEmpty then "-" else ",".intercalate ns} term=C"
